@@ -177,8 +177,12 @@ func c17RunWire(c c17Case) Verdict {
 	return v
 }
 
-// withClient runs fn with a go-smtp client connected to the rig over memnet;
-// a watchdog aborts the connection if fn hangs. It returns false on expiry.
+// withClient runs fn with a go-smtp client connected to the rig over memnet.
+// It returns false if fn did not return: either both ends ended up blocked
+// reading with nothing in flight (state-based: nobody will ever write again,
+// reported through lastClientStuck) or the watchdog expired.
+var lastClientStuck bool
+
 func withClient(r *harness.Rig, lmtp bool, fn func(c *smtp.Client, w *harness.Wire)) bool {
 	nc, w := r.DialConn()
 	var cl *smtp.Client
@@ -190,21 +194,36 @@ func withClient(r *harness.Rig, lmtp bool, fn func(c *smtp.Client, w *harness.Wi
 	done := make(chan struct{})
 	go func() {
 		defer close(done)
+		defer r.Hub.Broadcast()
 		fn(cl, w)
 	}()
-	ok := true
-	select {
-	case <-done:
-	case <-time.After(harness.Watchdog):
-		ok = false
+	finished, stuck := false, false
+	r.Hub.WaitUntil(func() bool {
+		select {
+		case <-done:
+			finished = true
+			return true
+		default:
+		}
+		if w.S.BlockedInReadLocked() && w.C.BlockedInReadLocked() && !r.B.AtGateLocked() && r.B.InflightLocked() == 0 {
+			stuck = true
+			return true
+		}
+		return false
+	}, harness.Watchdog)
+	lastClientStuck = stuck
+	if !finished {
 		w.Abort()
-		<-done
+		select {
+		case <-done:
+		case <-time.After(harness.Watchdog):
+		}
 	}
 	cl.Close()
 	w.C.Close()
 	r.B.ReleaseAll()
 	w.WaitClosed()
-	return r.Shutdown() && ok
+	return r.Shutdown() && finished
 }
 
 func c17RunClient(c c17Case) Verdict {
